@@ -107,7 +107,7 @@ def register(J):
     Q, T = ("quick", "thorough"), ("thorough",)
     # C04: arbitrary bytes
     for ctx in ("S0", "S1", "S5", "S7", "S3i", "S4"):
-        J.append(mk("K_ANY", "eq", "hash", ctx, 8, True, Q if ctx in ("S1", "S5") else T))
+        J.append(mk("K_ANY", "eq", "hash", ctx, 8, True, Q if ctx in ("S0", "S1", "S5") else T))
     for d in ("sp", "speq", "coloneq", "none", "sptab", "tabspeq"):
         J.append(mk("K_ANY", d, "hash" if d != "speq" else "hashsemi", "S1", 8, True, Q if d in ("sp", "speq") else T))
     J.append(mk("K_ANY", "eq", "hash", "S1", 8, True, Q, python=1))
